@@ -268,3 +268,337 @@ func c12freshName(c *core.Check) {
 		c.Unknown("fresh-name-not-taken", key, c.Prog.Rel(fd.Pos()), "no store of a generated name into fm.index found")
 	}
 }
+
+// c12nameStorage: a renamed file keeps its new name in `f.Name = &v`. The files of one Feed call are handled by one loop,
+// so the storage v must be created once per stored file: a variable declared inside the body of the loop that iterates the
+// files (Go 1.22 per-iteration semantics apply to body-declared variables anyway), or a fresh pointer from a call. A
+// variable declared outside that loop is shared by every file renamed in the same call: all of them end up with the name
+// of the last one, i.e. the assembled output contains the same name twice and loses the others.
+func c12nameStorage(c *core.Check) {
+	fd := c.Prog.FuncDecl("generator", "FileManager.Feed")
+	key := "generator.(FileManager).Feed/name-storage"
+	if fd == nil {
+		c.Unknown("anchor", "generator.(FileManager).Feed", "", "missing")
+		return
+	}
+	info := c.Prog.Pkg("generator").TypesInfo
+	// outermost loops of Feed
+	var loops []ast.Stmt
+	ast.Inspect(fd.Body, func(n ast.Node) bool {
+		switch n.(type) {
+		case *ast.ForStmt, *ast.RangeStmt:
+			loops = append(loops, n.(ast.Stmt))
+			return false
+		}
+		return true
+	})
+	n := 0
+	for _, loop := range loops {
+		var body *ast.BlockStmt
+		switch l := loop.(type) {
+		case *ast.ForStmt:
+			body = l.Body
+		case *ast.RangeStmt:
+			body = l.Body
+		}
+		ast.Inspect(body, func(nd ast.Node) bool {
+			as, ok := nd.(*ast.AssignStmt)
+			if !ok || len(as.Lhs) != 1 || len(as.Rhs) != 1 {
+				return true
+			}
+			sel, ok := as.Lhs[0].(*ast.SelectorExpr)
+			if !ok || sel.Sel.Name != "Name" {
+				return true
+			}
+			if tv, ok := info.Types[sel.X]; !ok || !strings.HasSuffix(tv.Type.String(), "plugin.Generated") {
+				return true
+			}
+			n++
+			k := fmt.Sprintf("%s#%d", key, n)
+			where := c.Prog.Rel(as.Pos())
+			switch rhs := ast.Unparen(as.Rhs[0]).(type) {
+			case *ast.UnaryExpr:
+				id, ok := ast.Unparen(rhs.X).(*ast.Ident)
+				if rhs.Op != token.AND || !ok {
+					c.Unknown("renamed-name-storage-per-file", k, where, "stored pointer "+rules.ExprString(rhs)+" not recognised")
+					return true
+				}
+				obj := info.Uses[id]
+				inside := obj != nil && obj.Pos() >= body.Pos() && obj.Pos() < body.End()
+				c.Decide(inside, "renamed-name-storage-per-file", k, where,
+					"the stored name points to a variable declared inside the per-file loop (fresh storage for every file)",
+					"the stored name points to variable "+id.Name+" declared outside the per-file loop: every file renamed in the same Feed call shares it, so they all carry the last new name and the output contains that name more than once")
+			case *ast.CallExpr:
+				c.OK("renamed-name-storage-per-file", k, where, "the stored name is the result of a call (fresh pointer per evaluation)")
+			default:
+				c.Unknown("renamed-name-storage-per-file", k, where, "stored value "+rules.ExprString(as.Rhs[0])+" not recognised")
+			}
+			return true
+		})
+	}
+	c.Min("renamed-name-storage-per-file", 1)
+}
+
+// c12discardLineage: "a later file with an existing name and identical content is dropped; with different content it is
+// kept under a fresh name". While looking for a free name Feed walks over names that are taken — by earlier renames of the
+// same name, but also by files that were submitted under such a name directly. Only the former are "the same file again":
+// a content comparison with whatever file the probe landed on drops a file because an unrelated file happens to have the
+// same content (Feed(a_1.go X, a.go Y, a.go X) loses the third file). Rule (AST def-use inside Feed): when the index
+// variable of the compared file `fm.files[IDX]` can be assigned from a lookup of fm.index under a name built in Feed, the
+// condition that leads to the discard is a conjunction, and one conjunct other than the content comparison is (or is a
+// variable assigned, inside the probe loop, from) an expression that mentions the submitted name.
+func c12discardLineage(c *core.Check) {
+	fd := c.Prog.FuncDecl("generator", "FileManager.Feed")
+	key := "generator.(FileManager).Feed/discard"
+	if fd == nil {
+		c.Unknown("anchor", "generator.(FileManager).Feed", "", "missing")
+		return
+	}
+	info := c.Prog.Pkg("generator").TypesInfo
+	recv := recvNameOf(fd, "fm")
+	// names built in Feed, and the variable holding the submitted name (assigned from a GetName call)
+	built := map[string]bool{}
+	submitted := map[string]bool{}
+	ast.Inspect(fd.Body, func(n ast.Node) bool {
+		as, ok := n.(*ast.AssignStmt)
+		if !ok || len(as.Lhs) != 1 || len(as.Rhs) != 1 {
+			return true
+		}
+		if call, ok := as.Rhs[0].(*ast.CallExpr); ok {
+			if fn := rules.Callee(info, call); fn != nil {
+				if fn.Pkg() != nil && fn.Pkg().Path() == "fmt" && fn.Name() == "Sprintf" {
+					built[rules.ExprString(as.Lhs[0])] = true
+				}
+				if fn.Name() == "GetName" && as.Tok == token.DEFINE {
+					submitted[rules.ExprString(as.Lhs[0])] = true
+				}
+			}
+		}
+		return true
+	})
+	isIndexOfBuilt := func(e ast.Expr) bool {
+		ix, ok := ast.Unparen(e).(*ast.IndexExpr)
+		return ok && rules.ExprString(ix.X) == recv+".index" && built[rules.ExprString(ix.Index)]
+	}
+	// variables assigned from fm.index[built] (directly or by copy)
+	fromProbe := map[string]bool{}
+	for changed := true; changed; {
+		changed = false
+		ast.Inspect(fd.Body, func(n ast.Node) bool {
+			as, ok := n.(*ast.AssignStmt)
+			if !ok || len(as.Rhs) != 1 {
+				return true
+			}
+			src := false
+			if isIndexOfBuilt(as.Rhs[0]) {
+				src = true
+			} else if id, ok := ast.Unparen(as.Rhs[0]).(*ast.Ident); ok && fromProbe[id.Name] {
+				src = true
+			}
+			if src {
+				if id, ok := as.Lhs[0].(*ast.Ident); ok && !fromProbe[id.Name] {
+					fromProbe[id.Name] = true
+					changed = true
+				}
+			}
+			return true
+		})
+	}
+	mentionsSubmitted := func(e ast.Node) bool {
+		found := false
+		ast.Inspect(e, func(n ast.Node) bool {
+			if id, ok := n.(*ast.Ident); ok && submitted[id.Name] {
+				found = true
+			}
+			return !found
+		})
+		return found
+	}
+	var conjuncts func(e ast.Expr) []ast.Expr
+	conjuncts = func(e ast.Expr) []ast.Expr {
+		if be, ok := ast.Unparen(e).(*ast.BinaryExpr); ok && be.Op == token.LAND {
+			return append(conjuncts(be.X), conjuncts(be.Y)...)
+		}
+		return []ast.Expr{ast.Unparen(e)}
+	}
+	n := 0
+	ast.Inspect(fd.Body, func(nd ast.Node) bool {
+		is, ok := nd.(*ast.IfStmt)
+		if !ok {
+			return true
+		}
+		// a branch that abandons the current file
+		abandons := false
+		ast.Inspect(is.Body, func(m ast.Node) bool {
+			if br, ok := m.(*ast.BranchStmt); ok && br.Tok == token.CONTINUE && br.Label != nil {
+				abandons = true
+			}
+			return true
+		})
+		if !abandons {
+			return true
+		}
+		cs := conjuncts(is.Cond)
+		var idxVar string
+		var others []ast.Expr
+		for _, cj := range cs {
+			be, ok := cj.(*ast.BinaryExpr)
+			if ok && be.Op == token.EQL {
+				l, r := rules.ExprString(be.X), rules.ExprString(be.Y)
+				if strings.HasSuffix(l, ".Content") && strings.HasSuffix(r, ".Content") {
+					for _, side := range []ast.Expr{be.X, be.Y} {
+						ast.Inspect(side, func(m ast.Node) bool {
+							if ix, ok := m.(*ast.IndexExpr); ok && rules.ExprString(ix.X) == recv+".files" {
+								idxVar = rules.ExprString(ix.Index)
+							}
+							return true
+						})
+					}
+					continue
+				}
+			}
+			others = append(others, cj)
+		}
+		if idxVar == "" {
+			return true
+		}
+		n++
+		k := fmt.Sprintf("%s#%d", key, n)
+		where := c.Prog.Rel(is.Pos())
+		if !fromProbe[idxVar] {
+			c.OK("discard-only-own-lineage", k, where, "the compared file is always the one stored under the submitted name")
+			return true
+		}
+		tied := false
+		for _, o := range others {
+			if mentionsSubmitted(o) {
+				tied = true
+			}
+			// a variable assigned in Feed from an expression that mentions the submitted name
+			ast.Inspect(o, func(m ast.Node) bool {
+				id, ok := m.(*ast.Ident)
+				if !ok {
+					return true
+				}
+				ast.Inspect(fd.Body, func(a ast.Node) bool {
+					as, ok := a.(*ast.AssignStmt)
+					if !ok || len(as.Lhs) != 1 || len(as.Rhs) != 1 {
+						return true
+					}
+					if l, ok := as.Lhs[0].(*ast.Ident); ok && l.Name == id.Name && mentionsSubmitted(as.Rhs[0]) {
+						tied = true
+					}
+					return true
+				})
+				return true
+			})
+		}
+		c.Decide(tied, "discard-only-own-lineage", k, where,
+			"the discard additionally requires that the compared file descends from the submitted name",
+			"the file is discarded as a duplicate whenever its content equals that of "+recv+".files["+idxVar+"], and "+idxVar+" may come from probing a built name in "+recv+".index: a file that was submitted under that name directly is unrelated, yet equal content makes Feed drop the new file (Feed(a_1.go X, a.go Y, a.go X) loses the third file)")
+		return true
+	})
+	c.Min("discard-only-own-lineage", 1)
+}
+
+// c12namedPatch: "a patch with no target is an error" also holds for a patch that names its target: an item with an
+// insertion point whose name is not (yet) in the index has nothing to be inserted into; storing it as a file emits a file
+// that consists of the patch text. Rule (go/cfg of Feed): every `fm.files = append(fm.files, X)` is reached only through the
+// empty-insertion-point outcome of a test of X.GetInsertionPoint() made after X was last assigned.
+func c12namedPatch(c *core.Check) {
+	fd := c.Prog.FuncDecl("generator", "FileManager.Feed")
+	key := "generator.(FileManager).Feed/named-patch"
+	if fd == nil {
+		c.Unknown("anchor", "generator.(FileManager).Feed", "", "missing")
+		return
+	}
+	info := c.Prog.Pkg("generator").TypesInfo
+	recv := recvNameOf(fd, "fm")
+	g := rules.CFG(info, fd.Body, nil)
+	type site struct {
+		node ast.Node
+		item string
+	}
+	var sites []site
+	ast.Inspect(fd.Body, func(n ast.Node) bool {
+		as, ok := n.(*ast.AssignStmt)
+		if !ok || len(as.Lhs) != 1 || len(as.Rhs) != 1 || rules.ExprString(as.Lhs[0]) != recv+".files" {
+			return true
+		}
+		if call, ok := as.Rhs[0].(*ast.CallExpr); ok && rules.IsBuiltin(info, call, "append") && len(call.Args) == 2 {
+			sites = append(sites, site{as, rules.ExprString(call.Args[1])})
+		}
+		return true
+	})
+	// classify a branch condition: +1 = true edge means "insertion point empty", -1 = false edge does, 0 = unrelated
+	classify := func(cond ast.Expr, item string) int {
+		be, ok := ast.Unparen(cond).(*ast.BinaryExpr)
+		if !ok || (be.Op != token.EQL && be.Op != token.NEQ) {
+			return 0
+		}
+		l, r := strings.ReplaceAll(rules.ExprString(be.X), " ", ""), strings.ReplaceAll(rules.ExprString(be.Y), " ", "")
+		if r == item+".GetInsertionPoint()" {
+			l, r = r, l
+		}
+		if l != item+".GetInsertionPoint()" || r != `""` {
+			return 0
+		}
+		if be.Op == token.EQL {
+			return 1
+		}
+		return -1
+	}
+	for i, s := range sites {
+		type st struct {
+			b   int32
+			est bool
+		}
+		seen := map[st]bool{}
+		bad := false
+		var visit func(b *cfg.Block, est bool)
+		visit = func(b *cfg.Block, est bool) {
+			if seen[st{b.Index, est}] {
+				return
+			}
+			seen[st{b.Index, est}] = true
+			for _, nd := range b.Nodes {
+				if nd == s.node && !est {
+					bad = true
+				}
+				if as, ok := nd.(*ast.AssignStmt); ok {
+					for _, l := range as.Lhs {
+						if rules.ExprString(l) == s.item {
+							est = false // another item
+						}
+					}
+				}
+			}
+			if len(b.Succs) == 2 && len(b.Nodes) > 0 {
+				if cond, ok := b.Nodes[len(b.Nodes)-1].(ast.Expr); ok {
+					switch classify(cond, s.item) {
+					case 1:
+						visit(b.Succs[0], true)
+						visit(b.Succs[1], est)
+						return
+					case -1:
+						visit(b.Succs[0], est)
+						visit(b.Succs[1], true)
+						return
+					}
+				}
+			}
+			for _, sc := range b.Succs {
+				visit(sc, est)
+			}
+		}
+		if len(g.Blocks) > 0 {
+			visit(g.Blocks[0], false)
+		}
+		c.Decide(!bad, "patch-without-target", fmt.Sprintf("%s/append#%d", key, i+1), c.Prog.Rel(s.node.Pos()),
+			"the item is stored as a file only after its insertion point was found empty",
+			"an item is stored as a new file on a path that never established that its insertion point is empty: a patch that names a target which does not exist is emitted as a file consisting of the patch text instead of being reported")
+	}
+	if len(sites) == 0 {
+		c.Unknown("patch-without-target", key, c.Prog.Rel(fd.Pos()), "no append to "+recv+".files found")
+	}
+}
